@@ -60,12 +60,6 @@ Conforms(nd, e) ==
   LET o == Step(nd.pre, Alphabet[e[2]], K) IN
   /\ o.resp = RespOf(e)
   /\ e[1] >= 0 => o.s = Nodes[e[1] + 1].pre
-Divergent == EdgesWhere(LAMBDA nd, e : ~Conforms(nd, e))
-\* the implementation refuses where the specification accepts / accepts where it refuses
-Stricter  == EdgesWhere(LAMBDA nd, e : e[3] = 0 /\ Step(nd.pre, Alphabet[e[2]], K).resp.ok)
-Laxer     == EdgesWhere(LAMBDA nd, e : e[3] = 1 /\ ~Step(nd.pre, Alphabet[e[2]], K).resp.ok)
-\* a refused request that changed the projected state (frame observation, reported only)
-FrameBad  == EdgesWhere(LAMBDA nd, e : e[3] = 0 /\ e[1] >= 0 /\ Nodes[e[1] + 1].pre # nd.pre)
 NEdges    == FoldLeft(LAMBDA acc, nd : acc + Len(nd.e), 0, Nodes)
 NAccepted == FoldLeft(LAMBDA acc, nd : acc + Cardinality({k \in DOMAIN nd.e : nd.e[k][3] = 1}), 0, Nodes)
 
@@ -85,16 +79,33 @@ Describe(p) == LET nd == Nodes[p[1]] e == nd.e[p[2]] IN
 Brief(p) == LET nd == Nodes[p[1]] e == nd.e[p[2]] IN [node |-> nd.id, ri |-> e[2], req |-> Alphabet[e[2]]]
 FirstN(S, n) == LET q == SetToSeq(S) IN SubSeq(q, 1, Min(n, Len(q)))
 
-FullReport ==
+\* counts and a few samples without ever building the set of all such edges (a tree that accepts far more
+\* than the model diverges on several 10^5 edges)
+CountWhere(Bad(_, _)) ==
+  FoldLeft(LAMBDA acc, nd : acc + Cardinality({k \in DOMAIN nd.e : Bad(nd, nd.e[k])}), 0, Nodes)
+SampleWhere(Bad(_, _), n) ==
+  LET q == FoldLeft(LAMBDA acc, nd : IF Len(acc) >= n THEN acc
+                                     ELSE acc \o SetToSeq({<<nd.id + 1, k>> : k \in {j \in DOMAIN nd.e : Bad(nd, nd.e[j])}}),
+                    <<>>, Nodes) IN
+  SubSeq(q, 1, Min(n, Len(q)))
+NotConf(nd, e)  == ~Conforms(nd, e)
+IsStrict(nd, e) == e[3] = 0 /\ Step(nd.pre, Alphabet[e[2]], K).resp.ok
+IsLax(nd, e)    == e[3] = 1 /\ ~Step(nd.pre, Alphabet[e[2]], K).resp.ok
+IsFrameBad(nd, e) == e[3] = 0 /\ e[1] >= 0 /\ Nodes[e[1] + 1].pre # nd.pre
+
+\* (a parameter keeps TLC from evaluating the report eagerly as a constant when it is not asked for)
+FullReport(full) ==
+  LET dv == SampleWhere(NotConf, 12)
+      fb == SampleWhere(IsFrameBad, 12) IN
   [ nodes |-> Len(Nodes), edges |-> NEdges, accepted |-> NAccepted,
-    ndivergent |-> Cardinality(Divergent), divergences |-> [i \in DOMAIN FirstN(Divergent, 12) |-> Describe(FirstN(Divergent, 12)[i])],
-    impl_stricter |-> Cardinality(Stricter), impl_laxer |-> Cardinality(Laxer),
-    stale_revoke_edges |-> Cardinality(EdgesWhere(StaleRevoke)),
-    frame_bad |-> [i \in DOMAIN FirstN(FrameBad, 12) |-> Brief(FirstN(FrameBad, 12)[i])],
+    ndivergent |-> CountWhere(NotConf), divergences |-> [i \in DOMAIN dv |-> Describe(dv[i])],
+    impl_stricter |-> CountWhere(IsStrict), impl_laxer |-> CountWhere(IsLax),
+    stale_revoke_edges |-> CountWhere(StaleRevoke),
+    frame_bad |-> [i \in DOMAIN fb |-> Brief(fb[i])],
     in_flight_states |-> Cardinality({i \in DOMAIN Nodes : InFlight(Nodes[i].pre)}),
     on_bound_states |-> Cardinality({i \in DOMAIN Nodes : OnBound(Nodes[i].pre)}),
     routed_states |-> Cardinality({i \in DOMAIN Nodes : Routed(Nodes[i].pre)}),
     pending_states |-> Cardinality({i \in DOMAIN Nodes : Pending(Nodes[i].pre)}) ]
-Report == IF IOEnv.PM_FULL = "1" THEN FullReport ELSE [nodes |-> Len(Nodes)]
+Report == IF IOEnv.PM_FULL = "1" THEN FullReport(TRUE) ELSE [nodes |-> Len(Nodes)]
 ASSUME JsonSerialize(IOEnv.PM_REPORT, Report)
 =============================================================================
